@@ -207,7 +207,7 @@ def run(chk):
                 else:
                     chk.violation("C19.eof", lp, f"while {K.short(lp.test, 50)}", "exit guarded by end-of-input",
                                   f"{cname}.{name}: a loop that awaits the input stream has no exit on end-of-input: on a truncated body it spins or blocks forever")
-    chk.expect_count("C19.eof", n_loops, 6, "stream-reading loops in the multipart readers")
+    chk.expect_count("C19.eof", n_loops, 7, "stream-reading loops in the multipart readers")
     # ---- limits ---------------------------------------------------------------------------------------------------------
     rh = repo.func(MP, "MultipartReader._read_headers")
     rl = K.exprs(rh, "self._content.readline(max_line_length=self._max_field_size)")
@@ -294,6 +294,7 @@ def run(chk):
                 chk.violation("C19.b64", c, K.short(c), "bytes taken from the carry buffer (or direct only when it is empty)",
                               f"{m.name}(): input bytes are base64-encoded and written without passing through the carry buffer: bytes held back from an earlier write (1-2 bytes of an incomplete triplet) are overtaken, the part's content is permuted")
     chk.expect_count("C19.b64", nb64, 2, "base64 encodings in the part writer")
+    hunt_rules(chk, repo)
     # ---- scan: the delimiter search covers the seam between the previous and the new chunk ----------------------
     scan(chk, repo)
     # ---- headers (shared with C04) ------------------------------------------------------------------------------------------------
@@ -338,6 +339,12 @@ def eof_exit(repo, cls, fn, lp) -> str | None:
             return f"`if {t}` leaves the loop once the stream reported EOF"
     # E2: state flag set by an awaited callee at EOF
     attrs = {n.attr for n in ast.walk(lp.test) if isinstance(n, ast.Attribute) and isinstance(n.value, ast.Name) and n.value.id == "self"}
+    # `while not part.at_eof(): ... await part.read_chunk(...)`: at_eof() reports the _at_eof flag of the reader whose read is awaited
+    for n in ast.walk(lp.test):
+        if isinstance(n, ast.Call) and isinstance(n.func, ast.Attribute) and n.func.attr == "at_eof":
+            recv = norm.raw(n.func.value)
+            if any(isinstance(a.value, ast.Call) and isinstance(a.value.func, ast.Attribute) and norm.raw(a.value.func.value) == recv for a in prog.awaits_in(lp)):
+                attrs = attrs | {"_at_eof"}
     if attrs:
         seen = set()
         work = []
@@ -367,3 +374,57 @@ def eof_exit(repo, cls, fn, lp) -> str | None:
             for c2 in prog.calls_in(t.node):
                 work.append(c2)
     return None
+
+
+
+def hunt_rules(chk, repo):
+    """Rules written after the defect hunt (DESIGN 12, F80-F86)."""
+    mr = repo.cls(MP, "MultipartReader")
+    bp = repo.cls(MP, "BodyPartReader")
+    # ---- C19.charset: the `_charset_` part is read like any other part -------------------------------------------------------------------
+    nx = mr.methods["next"]
+    cs = [i for i in ast.walk(nx.node) if isinstance(i, ast.If) and "_charset_" in norm.raw(i.test)]
+    if not cs:
+        chk.analysis_error("C19.charset: the `_charset_` branch of MultipartReader.next was not found")
+    for i in cs:
+        reads = [c for c in ast.walk(i) if isinstance(c, ast.Call) and isinstance(c.func, ast.Attribute) and c.func.attr == "read_chunk"]
+        small = [c for c in reads if c.args and isinstance(c.args[0], ast.Constant)]
+        consumed = any(isinstance(c, ast.Call) and norm.raw(c.func) == "self._read_boundary" for c in ast.walk(i))
+        if reads and not small and consumed:
+            chk.ok("C19.charset", i, "the `_charset_` part is read with a chunk size that respects the boundary length, and its delimiter is consumed before the next part is fetched")
+        else:
+            chk.violation("C19.charset", reads[0] if reads else i, K.short(reads[0], 50) if reads else "_charset_ branch", "read_chunk(>= boundary length + 2) ... await self._read_boundary()",
+                          "the `_charset_` field is read with read_chunk(32): any boundary longer than 28 characters (aiohttp's own default is 32) trips the `chunk size >= boundary length + 2` assertion, and with a short boundary the delimiter line is left unread and parsed as a header of the next part - a form whose first field is `_charset_` cannot be read back")
+    # ---- C19.decode: the synchronous and the asynchronous part decoders agree (both drain the decompressor) --------------------------------
+    for name in ("_decode_content", "_decode_content_async"):
+        m = bp.methods.get(name)
+        if m is None:
+            continue
+        drains = any(isinstance(w, ast.While) and "data_available" in norm.raw(w.test) for w in ast.walk(m.node))
+        if drains:
+            chk.ok("C19.decode", m, f"{name}(): output beyond one max_length slab is fetched while the decompressor reports data_available")
+        else:
+            chk.violation("C19.decode", m, "decompress_sync(data, max_length=...)", "while d.data_available: ... decompress(b'', max_length=...)",
+                          f"{name}() returns only the first max_length slab of the decompressed part: BodyPartReader.decode() silently truncates gzip/deflate parts to 256 KiB while decode_iter() and read(decode=True) return everything")
+    # ---- C19.qp: quoted-printable is encoded in binary mode (text mode rewrites line ends depending on where a chunk ends) -----------------
+    qp = [c for f in repo.module(MP).functions.values() for c in prog.calls_in(f.node) if norm.raw(c.func) == "binascii.b2a_qp"]
+    qp += [c for cl_ in repo.module(MP).classes.values() for m in cl_.methods.values() for c in prog.calls_in(m.node) if norm.raw(c.func) == "binascii.b2a_qp"]
+    for c in qp:
+        kw = {k.arg: k.value for k in c.keywords}
+        if "istext" in kw and isinstance(kw["istext"], ast.Constant) and kw["istext"].value is False:
+            chk.ok("C19.qp", c, "quoted-printable encoding keeps CR and LF as data (=0D / =0A): the result does not depend on chunk edges")
+        else:
+            chk.violation("C19.qp", c, K.short(c), "istext=False", "b2a_qp in text mode treats line ends specially per call: a chunk edge between CR and LF turns every later CRLF into LF on the wire, so the part is not read back byte for byte and the result depends on the segmentation")
+    chk.expect_count("C19.qp", len(qp), 1, "quoted-printable encodings")
+    # ---- C19.textsize: a text-mode file's byte size is its payload size only under the same codec (shared with C04) --------------------------
+    textsize(chk, repo, "C19.size")
+
+
+def textsize(chk, repo, rule):
+    tp = repo.cls(PL, "TextIOPayload")
+    sz = tp.methods.get("size")
+    if sz is not None and any(isinstance(n, ast.Return) and isinstance(n.value, ast.Constant) and n.value.value is None for n in ast.walk(sz.node)) and "encoding" in norm.raw(sz.node):
+        chk.ok(rule, sz, "TextIOPayload.size is None unless the file is read with the codec the payload is written with")
+    else:
+        chk.violation(rule, tp.node, "TextIOPayload.size (inherited: fstat size - tell)", "None when file encoding != payload encoding",
+                      "a text-mode file opened with another encoding (latin-1 text sent as utf-8) declares its on-disk size but writes the re-encoded text: Content-Length / multipart size are smaller than the bytes written and the tail is cut off or spills into the next message")
